@@ -35,13 +35,14 @@ func Transact(db *gorm.DB, fnList ...GormProcFn) (err error) {
 		return
 	}
 
+	// done is set only when every step has returned: a step that panics with a nil value or ends the
+	// goroutine (runtime.Goexit) leaves err == nil and recover() == nil, and must not be committed
+	var done bool
 	defer func() {
-		if err == nil {
+		if err == nil && !done {
 			var catch = recover()
-			if catch != nil {
-				ulog.Error("db.transaction.panic.error", zap.Stack("stack"))
-				err = fmt.Errorf("db.transaction.panic:%+v", catch)
-			}
+			ulog.Error("db.transaction.panic.error", zap.Stack("stack"))
+			err = fmt.Errorf("db.transaction.panic:%+v", catch)
 		}
 
 		if err != nil {
@@ -59,6 +60,7 @@ func Transact(db *gorm.DB, fnList ...GormProcFn) (err error) {
 			return
 		}
 	}
+	done = true
 
 	return
 }
